@@ -73,10 +73,10 @@ fn check_one(b: [u8; 4], p: &mut Part) -> Option<[u8; 3]> {
                     format!("built-in style name {:?} decoded to {:?}", name, v),
                     json!({"bytes": hex(&b)}),
                 );
-            } else if v.to_string() != name {
+            } else if v.to_string() != name || format!("{:#}", v) != name || format!("{:>3}", v) != name {
                 p.violation(
                     "C13/builtin-name-mismatch",
-                    format!("wire name {:?} decoded to a car printing as {:?}", name, v.to_string()),
+                    format!("wire name {:?} decoded to a car printing as {:?} / {:?} (alternate) / {:?} (width 3)", name, v.to_string(), format!("{:#}", v), format!("{:>3}", v)),
                     json!({"bytes": hex(&b)}),
                 );
             } else {
